@@ -430,7 +430,7 @@ def generate(seed, tier):
     rng = random.Random(seed * 7368787 + 17)
     out = []
     if tier == "quick":
-        nv, nm, nmu = 700, 450, 250
+        nv, nm, nmu = 500, 350, 180
         out += all_cuts(rng, 4) + all_cuts(rng, 5) + field_mutations(rng, 4) + field_mutations(rng, 5)
     else:
         nv, nm, nmu = 12000, 9000, 5000
